@@ -11,14 +11,25 @@ HARNESS_EXTRA = ["-fno-access-control"]       # the buffering limits have no pub
 CASE_START = ("case",)
 MANIFEST = dict(
     text="Lean 4 theorems over a code-shaped executable model of StreamIdentifier / Flow / Stream / StreamFollower "
-         "(generic in the connection key, reassembly = the C06 DataTracker model), tied to the code by differential "
-         "correspondence on interleaved multi-connection IPv4/IPv6 captures (callback trace, find_stream, per-flow buffer "
-         "counters) under ASan/UBSan, and a reference-connection-table oracle (Lean, executable) evaluated on the "
-         "implementation's own callback trace.",
+         "(generic in the connection key; per-flow reassembly = the C06 DataTracker model, per-flow ACK tracking = the C19 "
+         "AckTracker model, both imported with their theorems): identifier injectivity, announce_once, forget_iff / "
+         "forget_reason, memory_bound over the three limits (chunks, bytes, SACKed intervals), sacked_limit, route_correct, "
+         "flow_is_fold (per-flow state = Flow::process_packet folded over the sub-history routed to the flow, for every "
+         "interleaving), per_flow_delivery (C06's refinement theorem composed with that fold: each data callback is handed "
+         "exactly the stream prefix up to the frontier), ignore_data, callback_not_set_path, recovery_skips_hole, "
+         "trace_refines_reference_live. "
+         "Tied to the code by differential correspondence on interleaved multi-connection IPv4/IPv6 captures (callback "
+         "trace, find_stream, per-flow buffer counters and ACK-tracker state) under ASan/UBSan, and a reference-connection-"
+         "table oracle (Lean, executable) evaluated on the implementation's own callback trace.",
     note="Trusted: Lean kernel + standard axioms; hand-written model tied by correspondence (harness/c07_follower.cpp, built "
-         "with -fno-access-control to lower the two private buffering limits); ACK tracking off in all modelled "
-         "configurations (SACKED_SEGMENTS limit unreachable); generator coverage bounds what the tie sees.",
-    technique="Lean 4 proof (invariants over packet histories, simulation between key functions) + model/impl correspondence",
+         "with -fno-access-control to lower the two private buffering limits; the SACKed-interval limit is a compile-time "
+         "constant, read from the source by the check, reported by the harness and crossed by floods of limit+1 disjoint SACK "
+         "blocks); what the application does in the new-stream callback (auto-cleanup, enable_ack_tracking per flow, use_sack, "
+         "ignore_*_data, enable_recovery_mode, no callback at all) is part of the modelled configuration; what recovery mode does "
+         "to the data is compared model-vs-code only (no oracle clause of its own); "
+         "generator coverage bounds what the tie sees.",
+    technique="Lean 4 proof (invariants over packet histories, projection onto one connection, simulation between key "
+              "functions, composition with the C06 / C19 theorems) + model/impl correspondence",
     design="DESIGN.md §6 C07")
 
 FIN, SYN, RST, PSH, ACK = 1, 2, 4, 8, 16
@@ -37,6 +48,46 @@ def hexs(b):
     return b.hex() if b else "-"
 
 
+def max_sacked_from_source():
+    """DEFAULT_MAX_SACKED_INTERVALS as written in the source (the third limit of StreamFollower::process_packet is a
+    compile-time constant; the harness answers every `case` line with the compiled value and the oracle compares)"""
+    import os, re
+    try:
+        src = open(os.path.join(core.REPO, "src", "tcp_ip", "stream_follower.cpp")).read()
+    except OSError:
+        return None
+    m = re.search(r"DEFAULT_MAX_SACKED_INTERVALS\s*=\s*(\d+)\s*;", src)
+    return int(m.group(1)) if m else None
+
+
+MAXS = 1024
+
+
+class Recv:
+    """what the receiver of one direction holds: merged half-open runs of stream offsets"""
+    def __init__(self):
+        self.runs = []
+
+    def add(self, a, b):
+        if b <= a:
+            return
+        out, placed = [], False
+        for (x, y) in self.runs:
+            if y < a or b < x:
+                out.append((x, y))
+            else:
+                a, b = min(a, x), max(b, y)
+        out.append((a, b))
+        self.runs = sorted(out)
+
+    def frontier(self):
+        return self.runs[0][1] if self.runs and self.runs[0][0] <= 0 else 0
+
+    def above(self):
+        k = self.frontier()
+        return [(x, y) for (x, y) in self.runs if x > k]
+
+
 def pad_v4(h):
     return h + "0" * 24
 
@@ -52,6 +103,47 @@ class Conn:
             d = rng.choice("cs")
             self.isn[d] = (M32 - 1 - rng.randint(0, len(self.data[d]))) % M32
         self.pkts = []
+        self.rcv = {"c": Recv(), "s": Recv()}
+        self.ackmode = "receiver" if rng.random() < 0.7 else "max"
+        self.rng = rng
+
+    def sack_opts(self, d, ackoff):
+        """SACK option of a packet sent in direction d (acknowledging the other direction's stream)"""
+        rng = self.rng
+        o = "s" if d == "c" else "c"
+        base = self.isn[o] + 1
+        r = rng.random()
+        if r < 0.45:
+            return ""
+        if r < 0.80 and self.ackmode == "receiver":
+            runs = self.rcv[o].above()
+            if not runs:
+                return ""
+            rng.shuffle(runs)
+            runs = runs[:rng.randint(1, 4)]
+            return "sk=" + ",".join(f"{(base + x) % M32},{(base + y) % M32}" for (x, y) in runs)
+        if r < 0.90:                                          # plausible blocks above the ACK, not tied to the data
+            edges, pos = [], ackoff + rng.randint(1, 4)
+            for _ in range(rng.randint(1, 3)):
+                ln = rng.randint(1, 6)
+                edges += [(base + pos) % M32, (base + pos + ln) % M32]
+                pos += ln + rng.randint(1, 5)
+            return "sk=" + ",".join(map(str, edges))
+        if r < 0.94:                                          # not what a receiver emits: at / below the ACK, empty, reversed, far
+            v = rng.randrange(5)
+            a = (base + ackoff) % M32
+            if v == 0: return f"sk={(a - 3) % M32},{(a + 2) % M32}"
+            if v == 1: return f"sk={a},{(a + 5) % M32}"
+            if v == 2: return f"sk={(a + 9) % M32},{(a + 4) % M32}"
+            if v == 3: return f"sk={(a + 2 ** 31 - 2) % M32},{(a + 2 ** 31 + 3) % M32}"
+            return f"sk={(a + 4) % M32},{(a + 4) % M32}"
+        if r < 0.96:
+            return "sk=-"                                    # a SACK option without edges
+        if r < 0.98:                                          # an odd number of edges
+            a = (base + ackoff) % M32
+            return f"sk={(a + 2) % M32},{(a + 4) % M32},{(a + 8) % M32}"
+        n = rng.choice([1, 2, 3, 5, 6, 7, 9, 13])            # malformed: not a whole number of 32-bit edges
+        return "skraw=" + bytes(rng.randrange(256) for _ in range(n)).hex()
 
     def key(self):
         return (self.fam,) + tuple(sorted([(self.ca, self.cp), (self.sa, self.sp)]))
@@ -73,6 +165,15 @@ class Conn:
         a = 0 if ackoff is None else (self.isn[o] + 1 + ackoff) % M32
         src, sp, dst, dp = self.ends(d)
         pl = "none" if payload is None else hexs(payload)
+        if payload is not None and seq is None and off >= -1:
+            self.rcv[d].add(max(off, 0) if not (flags & SYN) else 0, (off if not (flags & SYN) else 0) + len(payload))
+        if ackoff is not None and (flags & ACK) and not (flags & RST):
+            if self.ackmode == "receiver" and not (flags & (SYN | FIN)):
+                ackoff = self.rcv[o].frontier()
+                a = (self.isn[o] + 1 + ackoff) % M32
+            so = self.sack_opts(d, ackoff)
+            if so:
+                opts = (opts + " " + so).strip()
         self.pkts.append(f"{self.fam} {src} {sp} {dst} {dp} {flags} {s} {a} {pl}" + (" " + opts if opts else ""))
 
 
@@ -199,9 +300,15 @@ def gen_case(rng, collide=False, big=False, defaults=False):
     ka = rng.choice([300000000, 300000000, 300000000, 1000, 50000, 50000, 1 if rng.random() < 0.3 else 7])
     cfg = dict(attach=int(rng.random() < 0.45), maxc=rng.choice([512, 512, 512, 512, 2, 3, 5, 8, 0 if rng.random() < 0.3 else 4]),
                maxb=rng.choice([3145728, 3145728, 3145728, 3145728, 10, 40, 100, 0 if rng.random() < 0.3 else 25]),
-               ka=ka, acl=int(rng.random() < 0.8), ooo=int(rng.random() < 0.5))
+               ka=ka, acl=int(rng.random() < 0.8), ooo=int(rng.random() < 0.5),
+               ack=rng.choice([0, 0, 1, 2, 3, 3, 3]), usesack=int(rng.random() < 0.4),
+               ign=rng.choice([0, 0, 0, 0, 0, 0, 1, 2, 3]), maxs=MAXS)
     if defaults:
         cfg.update(maxc=512, maxb=3145728)
+    if rng.random() < 0.08:
+        cfg["rec"] = rng.choice([0, 1, 5, 30, 30, 100, 2 ** 31, 2 ** 32 - 1])   # Stream::enable_recovery_mode(window)
+    if rng.random() < 0.04:
+        cfg["nocb"] = 1                                      # no new-stream callback installed: callback_not_set path
     ops = ["case " + " ".join(f"{k}={v}" for k, v in cfg.items())]
     n = rng.choice([1, 2, 2, 3, 3, 4, 6, 8])
     conns, keys = [], set()
@@ -256,7 +363,7 @@ def gen_case(rng, collide=False, big=False, defaults=False):
 
 def default_limit_case(rng, which):
     """cross the default limits (512 chunks / 3 MiB) with a flood of out-of-order segments"""
-    ops = [f"case attach={rng.randrange(2)} maxc=512 maxb=3145728 ka=300000000 acl=1 ooo=0"]
+    ops = [f"case attach={rng.randrange(2)} maxc=512 maxb=3145728 ka=300000000 acl=1 ooo=0 ack={rng.randrange(4)} maxs={MAXS}"]
     fam = rng.choice(["v4", "v6"])
     h = V4_HOSTS if fam == "v4" else V6_HOSTS
     a, b = h[0], h[1]
@@ -276,6 +383,88 @@ def default_limit_case(rng, which):
             t += 1
             src, sp, dst, dp, s0 = (a, 1000, b, 80, isn) if i % 2 else (b, 80, a, 1000, 77)
             ops.append(f"pkt {t} {fam} {src} {sp} {dst} {dp} {ACK} {(s0 + 1 + 10 + i * size) % M32} 78 {hexs(bytes([i]) * size)}")
+    ops.append(f"find {fam} {a} 1000 {b} 80")
+    return ops
+
+
+def sack_limit_case(rng, variant):
+    """cross the SACKed-interval limit (a compile-time constant: MAXS + 1 disjoint blocks are needed, four per segment).
+    variants: client  - all blocks reported by the client, only its flow is tracked
+              both    - the two flows together cross the limit, each alone stays below it
+              exact   - stop at exactly MAXS intervals, cover some by a cumulative ACK, then cross
+              untracked - the crossing direction is not tracked: nothing may happen
+              buffers - the crossing segment also exceeds the chunk limit: the reason must be BUFFERED_DATA
+              attach  - a connection attached mid-stream (trackers default-constructed; SACK only after use_sack)"""
+    fam = rng.choice(["v4", "v6"])
+    h = V4_HOSTS if fam == "v4" else V6_HOSTS
+    a, b = h[0], h[1]
+    ic, isv = rng.choice(BOUNDARY_ISNS + [rng.randrange(M32)]), rng.choice(BOUNDARY_ISNS + [rng.randrange(M32)])
+    ack = {"client": 1, "both": 3, "exact": rng.choice([1, 3]), "untracked": 2, "buffers": 3, "attach": 3}[variant]
+    maxc = 0 if variant == "buffers" else 512
+    usesack = 1 if variant == "attach" else rng.randrange(2)
+    attach = 1 if variant == "attach" else rng.randrange(2)
+    ops = [f"case attach={attach} maxc={maxc} maxb=3145728 ka=300000000 acl=1 ooo=0 ack={ack} usesack={usesack} ign=0 maxs={MAXS}"]
+    t = 5
+    cs = f"{fam} {a} 1000 {b} 80"; sc = f"{fam} {b} 80 {a} 1000"
+    if variant == "attach":
+        # default-constructed trackers start at ACK number 0: keep everything just above 0
+        ic, isv = 10, 20
+        ops.append(f"pkt {t} {cs} {ACK} 11 21 aa")
+    else:
+        ops.append(f"pkt {t} {cs} {SYN} {ic} 0 none")
+        ops.append(f"pkt {t} {sc} {SYN | ACK} {isv} {(ic + 1) % M32} none")
+        ops.append(f"pkt {t} {cs} {ACK} {(ic + 1) % M32} {(isv + 1) % M32} none")
+        ops.append(f"pkt {t} {sc} {ACK} {(isv + 1) % M32} {(ic + 1) % M32} none")
+    # position of block i above the acknowledged point of a direction: 3 sequence numbers apart, 1 or 2 long
+    def blocks(base, first, n):
+        return ",".join(f"{(base + 2 + 3 * i) % M32},{(base + 2 + 3 * i + rng.randint(1, 2)) % M32}" for i in range(first, first + n))
+    need = MAXS + 1
+    sent = {"c": 0, "s": 0}
+    def send(d, n, extra=""):
+        nonlocal t
+        t += 1
+        base = (isv + 1) if d == "c" else (ic + 1)        # the client acknowledges the server's stream
+        line, seq, ackn = (cs, (ic + 1) % M32, (isv + 1) % M32) if d == "c" else (sc, (isv + 1) % M32, (ic + 1) % M32)
+        if variant == "attach":
+            seq = (seq + 1) % M32 if d == "c" else seq
+        ops.append(f"pkt {t} {line} {ACK} {seq} {ackn} none sk={blocks(base, sent[d], n)}" + extra)
+        sent[d] += n
+    if variant in ("client", "untracked", "buffers", "attach"):
+        d = "c"
+        while sent[d] + 4 < need:
+            send(d, 4)
+        if variant == "buffers":
+            # the crossing segment carries an out-of-order payload: one buffered chunk > maxc = 0
+            t += 1
+            ops.append(f"pkt {t} {cs} {ACK} {(ic + 1 + 50) % M32} {(isv + 1) % M32} bb sk={blocks(isv + 1, sent[d], need - sent[d])}")
+        else:
+            while sent[d] < need:
+                send(d, 1)
+        send(d, 2)                                           # after the termination: not tracked any more (or untracked direction)
+    elif variant == "both":
+        half = need // 2
+        for d in "cs":
+            while sent[d] + 4 <= half - 1:
+                send(d, 4)
+        while sent["c"] + sent["s"] < need:
+            send(rng.choice("cs"), 1)
+        send("c", 1)
+    else:                                                    # exact
+        d = "c"
+        while sent[d] + 4 <= MAXS:
+            send(d, 4)
+        while sent[d] < MAXS:
+            send(d, 1)
+        ops.append(f"find {fam} {a} 1000 {b} 80")
+        # a cumulative ACK covering the first 10 blocks erases them; a block bridging two neighbours merges them
+        t += 1
+        ops.append(f"pkt {t} {cs} {ACK} {(ic + 1) % M32} {(isv + 1 + 2 + 3 * 10) % M32} none")
+        t += 1
+        ops.append(f"pkt {t} {cs} {ACK} {(ic + 1) % M32} {(isv + 1 + 2 + 3 * 10) % M32} none sk={(isv + 1 + 2 + 3 * 20) % M32},{(isv + 1 + 2 + 3 * 23 + 1) % M32}")
+        ops.append(f"find {fam} {a} 1000 {b} 80")
+        n0 = sent[d]
+        for _ in range(16):
+            send(d, 1)
     ops.append(f"find {fam} {a} 1000 {b} 80")
     return ops
 
@@ -316,7 +505,7 @@ def exhaustive_interleavings(limit, rng):
             for pos in itertools.combinations(range(6), 3):
                 for attach in (0, 1):
                     for gaps in ("short", "long"):
-                        ops = [f"case attach={attach} maxc=512 maxb=3145728 ka=1000 acl=1 ooo=1"]
+                        ops = [f"case attach={attach} maxc=512 maxb=3145728 ka=1000 acl=1 ooo=1 ack=3 maxs={MAXS}"]
                         ops += decls(A, 4294967294, 7, b"\x01\x02\x03", b"\x0a\x0b") + decls(B, 100, 4294967295, b"\x21\x22", b"\x31")
                         ia = ib = 0; t = 10
                         for i in range(6):
@@ -339,11 +528,15 @@ def classify(op, impl):
         return w[0] + (":none" if impl.endswith(" none") else ":found") if w[0] == "find" else w[0]
     tags = []
     ev = impl.split(" | ")[0]
-    for name in ("new", "cdata", "sdata", "cooo", "sooo", "closed", "TIMEOUT", "BUFFERED_DATA"):
+    for name in ("new", "cdata", "sdata", "cooo", "sooo", "closed", "TIMEOUT", "BUFFERED_DATA", "SACKED_SEGMENTS", "exc"):
         if (name + " ") in ev:
             tags.append(name)
     if "partial=1" in ev and "new " in ev:
         tags.append("attach")
+    if " rec=1" in impl:
+        tags.append("recovery")
+    if " civn=" in impl and (" civn=0 " not in impl or " sivn=0 " not in impl):
+        tags.append("sacked")
     return "pkt:" + w[2] + ":" + ("+".join(tags) if tags else ("untracked" if impl.endswith("| none") else "quiet"))
 
 
@@ -385,6 +578,13 @@ def run(chk):
         return
     rng = random.Random(chk.seed)
     quick = chk.tier == "quick"
+    global MAXS
+    m = max_sacked_from_source()
+    if m is None:
+        chk.violation("DEFAULT_MAX_SACKED_INTERVALS not found in src/tcp_ip/stream_follower.cpp (the limit constant the "
+                      "model takes as a parameter)", ["limit-constant-not-found"], nofail=True)
+    else:
+        MAXS = m
     stats = {}
     total = lambda: sum(v.get("spec", 0) + v.get("fault", 0) for v in stats.values())
 
@@ -414,6 +614,13 @@ def run(chk):
     for i in range(4 if quick else 60):
         ops += gen_case(rng, defaults=True)
     batch("defaults", ops)
+    # 2b. the SACKed-interval limit (a compile-time constant: floods of MAXS + 1 disjoint SACK blocks)
+    ops = []
+    variants = ["client", "both", "exact", "untracked", "buffers", "attach"]
+    if MAXS <= 20000:
+        for v in (variants if quick else variants * 4):
+            ops += sack_limit_case(rng, v)
+    batch("sacklimit", ops)
     # 3. cross-family workload: IPv4 connections and the IPv6 connections a.b.c.d:: with the same ports
     ops = []
     for i in range(150 if quick else 1500):
@@ -422,18 +629,26 @@ def run(chk):
     for p in problems:
         if not total():
             chk.violation("proof obligation no longer checks: " + p[:1500], ["theorem-or-audit-failure", p[:4000]], nofail=True)
-    chk.cov["rule"] = ("cases = (follower configuration, <= 8 scripted TCP connections over IPv4/IPv6 with shared hosts/ports, "
-                       "interleaving, timestamps); distinct_nontrivial counts distinct (operation, implementation result) pairs")
+    chk.cov["rule"] = ("cases = (follower configuration incl. what the new-stream callback does, <= 8 scripted TCP connections over "
+                       "IPv4/IPv6 with shared hosts/ports, receiver-model ACK / SACK options incl. malformed ones, interleaving, "
+                       "timestamps) + floods crossing each of the three limits at its default; distinct_nontrivial counts "
+                       "distinct (operation, implementation result) pairs")
     chk.assumptions += [
         "addresses are modelled as big-endian naturals; std::array<uint8_t,16> comparison = numeric comparison",
         "std::map<StreamIdentifier,Stream> is an association list; cleanup_streams visits expired entries in operator< order",
-        "ACK tracking is off (default): the SACKED_SEGMENTS limit is outside the model; recovery mode and ignore_*_data are not used",
-        "every callback is installed; auto-cleanup is switched (if at all) inside the new-stream callback",
+        "what the application does to a stream happens inside the new-stream callback and is part of the configuration: auto-cleanup "
+        "off, Flow::enable_ack_tracking per flow, AckTracker::use_sack, ignore_client_data / ignore_server_data, "
+        "enable_recovery_mode(window) (last, after the out-of-order callbacks); either every callback is installed or (nocb) "
+        "no new-stream callback at all",
+        "DEFAULT_MAX_SACKED_INTERVALS is a parameter of the model: the check reads the literal from src/tcp_ip/stream_follower.cpp, "
+        "the harness reports the compiled value and the oracle compares the two on every case",
+        "boost::icl::interval_set is the canonical interval list of the C19 model (validated against icl by the printed intervals)",
         "payload equality is compared through length + FNV-1a 64",
         "timestamps < 2^62 microseconds (std::chrono::microseconds is int64)",
     ]
     chk.trusted += ["correspondence harness harness/c07_follower.cpp (built with -fno-access-control to set the private "
                     "limits max_buffered_chunks_/max_buffered_bytes_) + generators in checks/C07.py",
+                    "C06 DataTracker model and C19 AckTracker model (imported; their own ties are the C06 / C19 checks)",
                     "g++ 12 / ASan+UBSan build of the repo's working tree"]
     chk.extra["batches"] = {k: dict(v) for k, v in stats.items()}
     # how much of the workload the oracle actually judges (sample)
@@ -447,11 +662,22 @@ def run(chk):
         verd[k] = verd.get(k, 0) + 1
     chk.extra["oracle_verdicts_sample"] = verd
     chk.extra["modelled_not_proved"] = [
-        "per-flow reassembly exactness (delivered bytes = stream prefix up to the frontier) is C06's theorem about the imported "
-        "DataTracker model; here it is checked by the oracle's deliver clause and by correspondence only",
-        "per-flow state as a fold of Flow::process_packet over the sub-history routed to it (route_correct is the one-step form)",
-        "ACK tracker / SACKED_SEGMENTS limit, recovery mode, ignore_*_data, callback_not_set path: outside the model",
-        "trace_refines_reference_partial assumes no identifier collision among all packets of the capture (not only live ones)",
+        "recovery mode (Stream::enable_recovery_mode / recovery_mode_handler): modelled (Flow.recEnd / recover), tied by "
+        "correspondence, covered by every configuration-generic theorem and by recovery_skips_hole / recovery_stays_off; the "
+        "oracle has no clause for what the handler does to the data (its deliver clause is switched off while recovery "
+        "mode is configured) and per_flow_delivery_* asks for a flow without a handler (FlowInv.rc)",
+        "per_flow_delivery_client/server start from a flow that satisfies FlowInv (out of UNKNOWN, tracker = C06's model): "
+        "established by syn_starts_client for the client direction of a SYN-created stream, by attach_starts for both "
+        "directions of an attached stream, by flow_step_syn for a server flow whose first segment is its SYN+ACK; a direction "
+        "in which data arrived before its SYN (the SYN then resets the expected sequence number) is outside the hypothesis: "
+        "oracle deliver clause and correspondence only",
+        "the content of a flow's ACK tracker (cumulative ACK, maximal runs of SACKed positions) is C19's theorem about the "
+        "imported AckTracker model; inside the follower it is judged by the oracle's acktrack clause (C19 stateVerdict) for "
+        "acknowledgement histories a receiver emits, from the segment that completes the direction's handshake, and by "
+        "correspondence otherwise (non-conforming SACKs, attached streams whose default-constructed trackers start at 0)",
+        "follower without a new-stream callback (callback_not_set): modelled (stepX / runX), unique keys and the three limits "
+        "proved for it (callback_not_set_path); the lifetime theorems (announce_once, forget_iff, flow_is_fold, ...) are "
+        "stated for the follower with the callback installed (runX = run then)",
     ]
     corr.finalize_cov(chk)
 
